@@ -1,6 +1,8 @@
 import SakuraVerif.Model.Exec
 import SakuraVerif.Driver.LexOps
 import SakuraVerif.Driver.Sexp
+import SakuraVerif.Driver.CoreOps
+import SakuraVerif.Lemmas.ExecRefine
 /-! Driver side of the runner tie: parses the real token list (S-expression form written by the
     harness op `lexrun`), runs `Model.Exec` and prints events and track states in the harness's
     text form. -/
@@ -49,5 +51,11 @@ def execOp (toksHex : String) : String :=
     let tr := ";".intercalate (s.tracks.map (fun t => showEvents t.events))
     let st := ";".intercalate (s.tracks.map trkState)
     s!"tracks={tr} state={st} cur={s.cur} pf={s.playFrom} seed={s.seed}"
+
+/-- `compile <hex of program S-expression>` → the token list `Ex2.compileL` assigns to the program, in the text form of op `lex` -/
+def compileOp (progHex : String) : String :=
+  let cs := progOf progHex
+  let t := " ".intercalate ((Ex2.compileL cs).map tokStr)
+  "toks=" ++ hex (t.toUTF8.toList.map (fun b => b.toNat))
 
 end Sakura.Driver
